@@ -273,7 +273,7 @@ package ion
 //@ requires bsLocal(b)
 //@ modifies b.pos, b.state, b.code, b.null, b.len, vcStreamOf(b.in).cur
 //@ ensures[C06] bsStream(b)
-//@ ensures[C03,C06,C08] err == nil ==> bsLocal(b)
+//@ ensures[C03,C06,C07,C08] err == nil ==> bsLocal(b)
 //@ ensures[C03,C06,C08] err == nil ==> bsAfterNext(b)
 //@ ensures[C03,C08] old(b.state) == bssBeforeValue && !old(bsTop(b)) && old(b.pos) == old(bsTopEnd(b)) ==>
 //@    err == nil && b.code == bitcodeEOF && b.pos == old(b.pos) && b.state == bssBeforeValue && bsS(b).cur == old(bsS(b).cur)
